@@ -1220,6 +1220,11 @@ func (self *PathNode) scanChildren(p *thrift.BinaryProtocol, recurse bool, opts 
 		self.kt = kt
 		var conAddr unsafe.Pointer
 		var N int
+		if opts.StoreChildrenByHash {
+			// NOTICE: children may be stored sparsely and GetByStr()/GetByInt() probe slots beyond len(Next),
+			// slots used by a previous Load() must not be seen as occupied or as children
+			resetPathNodeSlots(con)
+		}
 
 		if kt == thrift.STRING {
 			// fast path: use hash to store the key.
@@ -1227,8 +1232,6 @@ func (self *PathNode) scanChildren(p *thrift.BinaryProtocol, recurse bool, opts 
 				// NOTE: we use original count*2 as the capacity of the hash table.
 				N = size * 2
 				guardPathNodeSlice(&con, N-1)
-				// NOTICE: a used slot of a previous Load() would be taken as occupied
-				resetPathNodeSlots(con)
 				conAddr = *(*unsafe.Pointer)(unsafe.Pointer(&con))
 				c = N
 			}
@@ -1253,8 +1256,6 @@ func (self *PathNode) scanChildren(p *thrift.BinaryProtocol, recurse bool, opts 
 				// NOTE: we use original count*2 as the capacity of the hash table.
 				N = size * 2
 				guardPathNodeSlice(&con, N-1)
-				// NOTICE: a used slot of a previous Load() would be taken as occupied
-				resetPathNodeSlots(con)
 				conAddr = *(*unsafe.Pointer)(unsafe.Pointer(&con))
 				c = N
 			}
